@@ -635,3 +635,464 @@ Proof.
   - split; cbn; [|exact I]. constructor; [constructor|constructor].
   - vm_compute. reflexivity.
 Qed.
+
+(* ====================================================================================== *)
+(* add followed by the matching remove                                                      *)
+(* ====================================================================================== *)
+
+(* a pattern without '*' and '?' (and, by the domain of the model, without '[' and '\') matches
+   exactly itself *)
+Lemma str_contains_cons c a s :
+  str_contains c (String a s) = Ascii.eqb a c || str_contains c s.
+Proof.
+  unfold str_contains. simpl. destruct (Ascii.eqb a c); [reflexivity|].
+  destruct (str_index c s); reflexivity.
+Qed.
+
+Lemma gmatch_literal : forall p s, has_meta p = false -> gmatch p s = String.eqb p s.
+Proof.
+  induction p as [|c p IH]; intros s H.
+  - destruct s; reflexivity.
+  - unfold has_meta in H. rewrite !str_contains_cons in H.
+    apply orb_false_elim in H. destruct H as [H1 H2].
+    apply orb_false_elim in H1. destruct H1 as [Hc1 Hp1].
+    apply orb_false_elim in H2. destruct H2 as [Hc2 Hp2].
+    assert (has_meta p = false) as Hp by (unfold has_meta; rewrite Hp1, Hp2; reflexivity).
+    cbn [gmatch]. rewrite Hc1, Hc2. destruct s as [|d s]; [reflexivity|].
+    cbn [String.eqb]. rewrite IH by exact Hp. reflexivity.
+Qed.
+
+Lemma str_in_app s l1 l2 : str_in s (l1 ++ l2) = str_in s l1 || str_in s l2.
+Proof. induction l1; simpl; [reflexivity|]. rewrite IHl1, orb_assoc. reflexivity. Qed.
+
+Lemma filter_eqb_absent r l : str_in r l = false -> filter (String.eqb r) l = [].
+Proof.
+  induction l; simpl; intro H; [reflexivity|]. apply orb_false_elim in H. destruct H as [H1 H2].
+  rewrite H1. apply IHl. exact H2.
+Qed.
+
+Lemma filter_not_r_absent r l : str_in r l = false -> filter (fun x => negb (str_in x [r])) l = l.
+Proof.
+  induction l as [|a l IH]; intro H; [reflexivity|].
+  cbn [str_in] in H. apply orb_false_elim in H. destruct H as [H1 H2].
+  assert (str_in a [r] = false) as E by (cbn [str_in]; rewrite String.eqb_sym, H1; reflexivity).
+  cbn [filter]. rewrite E. cbn [negb]. rewrite IH by exact H2. reflexivity.
+Qed.
+
+(* removing the literal r from cur ++ [r] when r was not in cur *)
+Lemma remove_matching_added r cur :
+  has_meta r = false -> str_in r cur = false -> remove_matching (cur ++ [r]) [r] = Some cur.
+Proof.
+  intros Hm Ha. unfold remove_matching, glob_in_list. cbn [flat_map]. rewrite app_nil_r.
+  rewrite (filter_ext _ (String.eqb r)) by (intro; apply gmatch_literal; exact Hm).
+  rewrite filter_app, (filter_eqb_absent r cur Ha).
+  assert (filter (String.eqb r) [r] = [r]) as E1 by (cbn [filter]; rewrite String.eqb_refl; reflexivity).
+  rewrite E1. cbn [app].
+  f_equal. rewrite filter_app, (filter_not_r_absent r cur Ha).
+  assert (filter (fun x => negb (str_in x [r])) [r] = []) as E2
+      by (cbn [filter str_in]; rewrite String.eqb_refl; reflexivity).
+  rewrite E2. apply app_nil_r.
+Qed.
+
+(* every element of the list is r *)
+Definition all_are (r : string) (l : list string) : Prop := Forall (fun x => x = r) l.
+
+Lemma add_missing_all_r skipk r : forall rs cur,
+  all_are r rs -> rs <> [] -> str_in r cur = false ->
+  (match skipk with Some kp => String.eqb kp r | None => false end) = false ->
+  add_missing skipk rs cur = cur ++ [r].
+Proof.
+  assert (forall rs cur, all_are r rs -> str_in r cur = true -> add_missing skipk rs cur = cur) as G.
+  { induction rs as [|x t IH]; simpl; intros cur Hall Hin; [reflexivity|].
+    inversion Hall; subst. destruct (match skipk with Some kp => String.eqb kp r | None => false end);
+      [apply IH; assumption|]. rewrite Hin. apply IH; assumption. }
+  intros rs cur Hall Hne Ha Hk. destruct rs as [|x t]; [contradiction|]. inversion Hall; subst.
+  simpl. rewrite Hk, Ha. apply G; [assumption|]. rewrite str_in_app. simpl. rewrite String.eqb_refl.
+  rewrite orb_true_r. reflexivity.
+Qed.
+
+Lemma insert_all_r r l : all_are r l -> all_are r (insert_str r l).
+Proof.
+  induction l as [|a l IH]; simpl; intro H.
+  - constructor; [reflexivity|constructor].
+  - inversion H as [|? ? Ea Hl]; subst. destruct (String.leb r r).
+    + constructor; [reflexivity|exact H].
+    + constructor; [reflexivity|apply IH; exact Hl].
+Qed.
+
+Lemma sort_strs_all_r r l : all_are r l -> all_are r (sort_strs l).
+Proof.
+  intro H. unfold sort_strs. induction l as [|a l IH]; simpl; [constructor|].
+  inversion H as [|? ? Ea Hl]; subst. apply insert_all_r. apply IH. exact Hl.
+Qed.
+
+Lemma filter_literal_all_r r l : has_meta r = false -> all_are r (filter (gmatch r) l).
+Proof.
+  intro Hm. unfold all_are. apply Forall_forall. intros x Hx. apply filter_In in Hx. destruct Hx as [_ Hx].
+  rewrite gmatch_literal in Hx by exact Hm. symmetry. apply String.eqb_eq. exact Hx.
+Qed.
+
+Lemma fs_glob_literal e r : has_meta r = false -> all_are r (fs_glob e r).
+Proof. intro Hm. unfold fs_glob. apply sort_strs_all_r. apply filter_literal_all_r. exact Hm. Qed.
+
+Lemma gpwl_literal e r nv rs :
+  has_meta r = false -> glob_patterns_with_loader e [r] nv = Ok rs -> all_are r rs /\ rs <> [].
+Proof.
+  intros Hm H. cbn in H. destruct nv.
+  - injection H as H. subst. split; [constructor; [reflexivity|constructor]|discriminate].
+  - pose proof (fs_glob_literal e r Hm) as Hall. destruct (fs_glob e r) as [|x t] eqn:G.
+    + destruct (dir_exists e r); [|discriminate]. injection H as H. subst.
+      split; [constructor; [reflexivity|constructor]|discriminate].
+    + injection H as H. subst. rewrite app_nil_r. split; [exact Hall|discriminate].
+Qed.
+
+Lemma fixed_N_resources k : fixed k -> k_resources (N k) = k_resources k.
+Proof. intro F. cbn. rewrite (fixed_bases k F). apply app_nil_r. Qed.
+
+Lemma set_resources_N k : fixed k -> set_resources (k_resources k) (N k) = N k.
+Proof. intro F. rewrite <- (fixed_N_resources k F). apply set_get_resources. Qed.
+
+(* add resource r ; remove resource r *)
+Theorem add_remove_resource e k r nv k1 :
+  fixed k -> has_meta r = false -> str_in r (k_resources k) = false -> String.eqb (e_kpath e) r = false ->
+  apply_op e (Ok k) (AddResource [r] nv) = Ok (Some k1) ->
+  model_step e (model_step e k (AddResource [r] nv)) (RemoveResource [r]) = N k.
+Proof.
+  intros F Hm Ha Hk H1. rewrite (model_step_N e k). rewrite H1.
+  cbn [apply_op] in H1. destruct (glob_patterns_with_loader e [r] nv) as [rs| | |] eqn:G; try discriminate H1.
+  destruct (gpwl_literal e r nv rs Hm G) as [Hall Hne]. cbn [bind] in H1. unfold add_paths in H1.
+  destruct rs as [|x t] eqn:Ers; [contradiction|]. rewrite <- Ers in *. cbn [bind] in H1. unfold wrote in H1.
+  injection H1 as H1. subst k1.
+  rewrite (add_missing_all_r (Some (e_kpath e)) r rs (k_resources k) Hall Hne Ha Hk).
+  rewrite N_set_resources, (fixed_bases k F), app_nil_r.
+  rewrite model_step_N. cbn [apply_op bind k_resources set_resources].
+  rewrite (remove_matching_added r (k_resources k) Hm Ha). unfold wrote.
+  rewrite N_set_resources. cbn [k_bases set_resources]. rewrite app_nil_r.
+  transitivity (set_resources (k_resources k) (N (N k))); [reflexivity|].
+  rewrite N_idem. apply set_resources_N. exact F.
+Qed.
+
+(* add transformer t ; remove transformer t *)
+Theorem add_remove_transformer e k t k1 :
+  has_meta t = false -> str_in t (k_transformers k) = false ->
+  apply_op e (Ok k) (AddTransformer [t]) = Ok (Some k1) ->
+  model_step e (model_step e k (AddTransformer [t])) (RemoveTransformer [t]) = N k.
+Proof.
+  intros Hm Ha H1. rewrite (model_step_N e k). rewrite H1.
+  cbn [apply_op] in H1. unfold add_paths in H1.
+  assert (all_are t (glob_patterns e [t])) as Hall
+      by (unfold glob_patterns; cbn [flat_map]; rewrite app_nil_r; apply fs_glob_literal; exact Hm).
+  destruct (glob_patterns e [t]) as [|x rest] eqn:G; [discriminate H1|].
+  cbn beta iota in H1. cbn [bind] in H1. unfold wrote in H1. injection H1 as H1. subst k1.
+  change (if str_in x (k_transformers k) then add_missing None rest (k_transformers k)
+          else add_missing None rest (k_transformers k ++ [x]))
+    with (add_missing None (x :: rest) (k_transformers k)).
+  rewrite (add_missing_all_r None t (x :: rest) (k_transformers k) Hall ltac:(discriminate) Ha eq_refl).
+  rewrite N_set_transformers.
+  rewrite model_step_N. cbn [apply_op bind k_transformers set_transformers].
+  rewrite (remove_matching_added t (k_transformers k) Hm Ha). unfold wrote.
+  rewrite N_set_transformers.
+  transitivity (set_transformers (k_transformers (N k)) (N (N k))); [reflexivity|].
+  rewrite N_idem. apply set_get_transformers.
+Qed.
+
+(* add buildmetadata a ; remove buildmetadata a *)
+Lemma add_all_new_spec : forall news cur l,
+  add_all_new news cur = Ok l ->
+  l = cur ++ news /\ forallb (fun o => negb (str_in o cur)) news = true.
+Proof.
+  induction news as [|x t IH]; simpl; intros cur l H.
+  - injection H as H. subst. rewrite app_nil_r. split; reflexivity.
+  - destruct (str_in x cur) eqn:E; [discriminate|].
+    destruct (IH _ _ H) as [El Hall]. split.
+    + rewrite El, <- app_assoc. reflexivity.
+    + cbn. rewrite forallb_forall in *. intros o Ho. specialize (Hall o Ho).
+      rewrite str_in_app in Hall. apply negb_true_iff in Hall. apply orb_false_elim in Hall.
+      apply negb_true_iff. tauto.
+Qed.
+
+Lemma filter_not_in_disjoint opts : forall cur,
+  forallb (fun o => negb (str_in o opts)) cur = true ->
+  filter (fun o => negb (str_in o opts)) cur = cur.
+Proof.
+  induction cur as [|a l IH]; intro H; [reflexivity|]. cbn [forallb] in H.
+  apply andb_prop in H. destruct H as [H1 H2]. cbn [filter]. rewrite H1, IH by exact H2. reflexivity.
+Qed.
+
+Lemma filter_all_in opts : filter (fun o => negb (str_in o opts)) opts = [].
+Proof.
+  assert (forall l, (forall x, In x l -> str_in x opts = true) -> filter (fun o => negb (str_in o opts)) l = []) as G.
+  { induction l as [|a l IH]; intro H; [reflexivity|]. cbn [filter].
+    rewrite (H a (or_introl eq_refl)). cbn. apply IH. intros x Hx. apply H. right. exact Hx. }
+  apply G. intros x Hx. clear G. induction opts as [|a l IH]; [destruct Hx|].
+  cbn. destruct Hx as [Hx|Hx]; [subst; rewrite String.eqb_refl; reflexivity|].
+  rewrite (IH Hx). apply orb_true_r.
+Qed.
+
+Lemma str_in_sym_disjoint news : forall cur,
+  forallb (fun o => negb (str_in o cur)) news = true ->
+  forallb (fun o => negb (str_in o news)) cur = true.
+Proof.
+  intros cur H. apply forallb_forall. intros c Hc. apply negb_true_iff.
+  destruct (str_in c news) eqn:E; [|reflexivity]. exfalso.
+  assert (In c news) as Hin.
+  { clear - E. induction news; simpl in E; [discriminate|]. apply orb_prop in E. destruct E as [E|E].
+    - left. symmetry. apply String.eqb_eq. exact E.
+    - right. apply IHnews. exact E. }
+  rewrite forallb_forall in H. specialize (H c Hin). apply negb_true_iff in H.
+  assert (str_in c cur = true) as T.
+  { clear - Hc. induction cur; [destruct Hc|]. simpl. destruct Hc as [Hc|Hc];
+      [subst; rewrite String.eqb_refl; reflexivity|rewrite (IHcur Hc); apply orb_true_r]. }
+  rewrite T in H. discriminate.
+Qed.
+
+Theorem add_remove_buildmetadata e k args k1 :
+  apply_op e (Ok k) (AddBuildMetadata args) = Ok (Some k1) ->
+  model_step e (model_step e k (AddBuildMetadata args)) (RemoveBuildMetadata args) = N k.
+Proof.
+  intros H1. rewrite (model_step_N e k). rewrite H1. cbn [apply_op] in H1.
+  destruct (validate_buildmetadata args) as [opts| | |] eqn:V; try discriminate H1. cbn [bind] in H1.
+  destruct (add_all_new opts (k_buildMetadata k)) as [l| | |] eqn:A; try discriminate H1. cbn [bind] in H1.
+  unfold wrote in H1. injection H1 as H1. subst k1.
+  destruct (add_all_new_spec _ _ _ A) as [El Hd]. subst l.
+  rewrite N_set_buildMetadata. rewrite model_step_N. cbn [apply_op]. rewrite V. cbn [bind k_buildMetadata set_buildMetadata].
+  unfold wrote. rewrite filter_app.
+  rewrite (filter_not_in_disjoint opts (k_buildMetadata k)) by (apply str_in_sym_disjoint; exact Hd).
+  rewrite filter_all_in, app_nil_r. rewrite N_set_buildMetadata.
+  transitivity (set_buildMetadata (k_buildMetadata (N k)) (N (N k))); [reflexivity|].
+  rewrite N_idem. apply set_get_buildMetadata.
+Qed.
+
+(* add label key:v ; remove label key   (commonLabels; one key) *)
+Lemma canon_mapo_or_empty (o : option smap) : canon_mapo (Some (mapo_or_empty o)) = canon_mapo o.
+Proof. destruct o as [[|]|]; reflexivity. Qed.
+
+Lemma add_label_value e k a key v :
+  convert_slice_to_map [a] [] = Ok [(key, v)] ->
+  assoc_get key (mapo_or_empty (k_commonLabels k)) = None ->
+  apply_op e (Ok k) (AddLabel [a] false false false) =
+  Ok (Some (set_commonLabels (Some (assoc_set key v (mapo_or_empty (k_commonLabels k)))) k)).
+Proof.
+  intros Hc Hg. cbn [apply_op negb andb]. rewrite Hc. cbn [bind].
+  unfold write_to_map. cbn [negb andb existsb fst]. unfold assoc_mem. rewrite Hg. cbn [orb fold_left fst snd bind].
+  reflexivity.
+Qed.
+
+Theorem add_remove_label e k a key v :
+  sorted_o (k_commonLabels k) ->
+  convert_slice_to_map [a] [] = Ok [(key, v)] ->
+  split_on ","%char key = [key] -> String.eqb key "" = false ->
+  assoc_get key (mapo_or_empty (k_commonLabels k)) = None ->
+  model_step e (model_step e k (AddLabel [a] false false false)) (RemoveLabel [key] false) = N k.
+Proof.
+  intros S Hc Hsp Hne Hg. rewrite (model_step_N e k). rewrite (add_label_value e k a key v Hc Hg).
+  rewrite N_set_commonLabels.
+  rewrite (canon_mapo_some_nonempty (assoc_set key v (mapo_or_empty (k_commonLabels k)))) by apply assoc_set_nonempty.
+  rewrite model_step_N. cbn [apply_op parse_remove_arg]. rewrite Hsp. cbn [existsb orb]. rewrite Hne.
+  cbn [orb]. cbn [bind k_commonLabels set_commonLabels]. cbn [remove_from_map].
+  unfold assoc_mem at 1. rewrite assoc_get_set_same. cbn [negb andb].
+  rewrite assoc_del_set by (try apply sorted_mapo_or_empty; assumption).
+  cbn [bind]. unfold wrote. rewrite N_set_commonLabels, canon_mapo_or_empty.
+  transitivity (set_commonLabels (k_commonLabels (N k)) (N (N k))); [reflexivity|].
+  rewrite N_idem. apply set_get_commonLabels.
+Qed.
+
+Lemma add_annotation_value e k a key v :
+  convert_slice_to_map [a] [] = Ok [(key, v)] ->
+  assoc_get key (mapo_or_empty (k_commonAnnotations k)) = None ->
+  apply_op e (Ok k) (AddAnnotation [a] false) =
+  Ok (Some (set_commonAnnotations (Some (assoc_set key v (mapo_or_empty (k_commonAnnotations k)))) k)).
+Proof.
+  intros Hc Hg. cbn [apply_op]. rewrite Hc. cbn [bind].
+  unfold write_to_map. cbn [negb andb existsb fst]. unfold assoc_mem. rewrite Hg. cbn [orb fold_left fst snd bind].
+  reflexivity.
+Qed.
+
+Theorem add_remove_annotation e k a key v :
+  sorted_o (k_commonAnnotations k) ->
+  convert_slice_to_map [a] [] = Ok [(key, v)] ->
+  split_on ","%char key = [key] -> String.eqb key "" = false ->
+  assoc_get key (mapo_or_empty (k_commonAnnotations k)) = None ->
+  model_step e (model_step e k (AddAnnotation [a] false)) (RemoveAnnotation [key] false) = N k.
+Proof.
+  intros S Hc Hsp Hne Hg. rewrite (model_step_N e k). rewrite (add_annotation_value e k a key v Hc Hg).
+  rewrite N_set_commonAnnotations.
+  rewrite (canon_mapo_some_nonempty (assoc_set key v (mapo_or_empty (k_commonAnnotations k)))) by apply assoc_set_nonempty.
+  rewrite model_step_N. cbn [apply_op parse_remove_arg]. rewrite Hsp. cbn [existsb orb]. rewrite Hne.
+  cbn [orb]. cbn [bind k_commonAnnotations set_commonAnnotations]. cbn [remove_from_map].
+  unfold assoc_mem at 1. rewrite assoc_get_set_same. cbn [negb andb].
+  rewrite assoc_del_set by (try apply sorted_mapo_or_empty; assumption).
+  cbn [bind]. unfold wrote. rewrite N_set_commonAnnotations, canon_mapo_or_empty.
+  transitivity (set_commonAnnotations (k_commonAnnotations (N k)) (N (N k))); [reflexivity|].
+  rewrite N_idem. apply set_get_commonAnnotations.
+Qed.
+
+(* add configmap / secret NAME ; remove configmap / secret NAME *)
+Definition gen_norm (l : list genargs) : list genargs := map fix_env (map canon_genargs l).
+
+Lemma gen_norm_idem l : gen_norm (gen_norm l) = gen_norm l.
+Proof.
+  unfold gen_norm. rewrite (map_comm canon_genargs fix_env) by (intro; symmetry; apply fix_env_canon).
+  rewrite (map_idem fix_env) by apply fix_env_idem.
+  rewrite (map_idem canon_genargs) by apply canon_genargs_idem. reflexivity.
+Qed.
+
+Lemma gen_norm_app l1 l2 : gen_norm (l1 ++ l2) = gen_norm l1 ++ gen_norm l2.
+Proof. unfold gen_norm. rewrite !map_app. reflexivity. Qed.
+
+Lemma gen_norm_name a : ga_name (fix_env (canon_genargs a)) = ga_name a.
+Proof. unfold fix_env, canon_genargs. cbn. destruct (String.eqb (ga_env a) ""); reflexivity. Qed.
+Lemma gen_norm_namespace a : ga_namespace (fix_env (canon_genargs a)) = ga_namespace a.
+Proof. unfold fix_env, canon_genargs. cbn. destruct (String.eqb (ga_env a) ""); reflexivity. Qed.
+
+Lemma find_index_none {A} (p : A -> bool) l : find_index p l = None -> forall x, In x l -> p x = false.
+Proof.
+  induction l as [|a l IH]; simpl; intros H x Hx; [destruct Hx|].
+  destruct (p a) eqn:E; [discriminate|]. destruct (find_index p l); [discriminate|].
+  destruct Hx as [Hx|Hx]; [subst; exact E|apply IH; [reflexivity|exact Hx]].
+Qed.
+
+Lemma nth_error_app_last {A} (l : list A) x : nth_error (l ++ [x]) (List.length l) = Some x.
+Proof. induction l; simpl; [reflexivity|exact IHl]. Qed.
+
+Lemma replace_nth_app_last {A} (l : list A) x y : replace_nth (List.length l) y (l ++ [x]) = l ++ [y].
+Proof. induction l; simpl; [reflexivity|rewrite IHl; reflexivity]. Qed.
+
+(* the shape of a successful add when no generator of that name/namespace exists *)
+Lemma add_generator_args_new e secret fl files global l name l' :
+  cf_args fl = [name] -> find_gen name (cf_namespace fl) l = None ->
+  add_generator_args e secret fl files global l = Ok l' ->
+  exists a, l' = l ++ [a] /\ ga_name a = name /\ ga_namespace a = cf_namespace fl.
+Proof.
+  intros Ha Hf H. unfold add_generator_args in H. rewrite Ha, Hf in H.
+  rewrite nth_error_app_last in H.
+  match type of H with (if generator_valid e ?a2 then _ else _) = _ => destruct (generator_valid e a2); [|discriminate H];
+    exists a2 end.
+  injection H as H. subst l'. rewrite replace_nth_app_last. split; [reflexivity|]. split; reflexivity.
+Qed.
+
+Lemma remove_generator_args_added name ns l a :
+  split_on ","%char name = [name] ->
+  (forall g, In g l -> (String.eqb name (ga_name g) && ns_equal (ga_namespace g) ns) = false) ->
+  ga_name a = name -> ga_namespace a = ns ->
+  remove_generator_args [name] ns (gen_norm (l ++ [a])) = Ok (gen_norm l).
+Proof.
+  intros Hsp Hl Hn Hs. unfold remove_generator_args. rewrite Hsp.
+  set (hit := fun g : genargs => str_in (ga_name g) [name] && ns_equal (ga_namespace g) ns).
+  assert (forall g, In g l -> hit (fix_env (canon_genargs g)) = false) as Hmiss.
+  { intros g Hg. unfold hit. rewrite gen_norm_name, gen_norm_namespace. cbn [str_in].
+    rewrite orb_false_r, String.eqb_sym. apply Hl. exact Hg. }
+  assert (hit (fix_env (canon_genargs a)) = true) as Hhit.
+  { unfold hit. rewrite gen_norm_name, gen_norm_namespace, Hn, Hs. cbn [str_in]. rewrite String.eqb_refl. cbn.
+    unfold ns_equal. apply String.eqb_refl. }
+  rewrite gen_norm_app.
+  assert (existsb hit (gen_norm l ++ gen_norm [a]) = true) as Ex.
+  { rewrite existsb_app. cbn. rewrite Hhit. rewrite orb_true_r. reflexivity. }
+  rewrite Ex. f_equal. rewrite filter_app.
+  change (fun g : genargs => negb (str_in (ga_name g) [name] && ns_equal (ga_namespace g) ns))
+    with (fun g : genargs => negb (hit g)).
+  assert (filter (fun g => negb (hit g)) (gen_norm [a]) = []) as E1
+      by (unfold gen_norm; cbn [map filter]; rewrite Hhit; reflexivity).
+  rewrite E1, app_nil_r. clear E1 Ex Hl.
+  unfold gen_norm. rewrite map_map.
+  induction l as [|g t IH]; [reflexivity|]. cbn [map filter].
+  rewrite (Hmiss g (or_introl eq_refl)). cbn [negb]. f_equal. apply IH.
+  intros x Hx. apply Hmiss. right. exact Hx.
+Qed.
+
+Theorem add_remove_configmap e k fl name k1 :
+  cf_args fl = [name] -> split_on ","%char name = [name] ->
+  find_gen name (cf_namespace fl) (k_configMapGenerator k) = None ->
+  apply_op e (Ok k) (AddConfigMap fl) = Ok (Some k1) ->
+  model_step e (model_step e k (AddConfigMap fl)) (RemoveConfigMap [name] (cf_namespace fl)) = N k.
+Proof.
+  intros Ha Hsp Hf H1. rewrite (model_step_N e k). rewrite H1. cbn [apply_op] in H1.
+  destruct (validate_add e fl) as [files| | |]; try discriminate H1. cbn [bind] in H1.
+  destruct (add_generator_args e false fl files (k_generatorOptions k) (k_configMapGenerator k)) as [l'| | |] eqn:A;
+    try discriminate H1. cbn [bind] in H1. unfold wrote in H1. injection H1 as H1. subst k1.
+  destruct (add_generator_args_new _ _ _ _ _ _ _ _ Ha Hf A) as [a [El [Hn Hs]]]. subst l'.
+  rewrite N_set_configMapGenerator. rewrite model_step_N. cbn [apply_op bind k_configMapGenerator set_configMapGenerator].
+  fold (gen_norm (k_configMapGenerator k ++ [a])).
+  rewrite (remove_generator_args_added name (cf_namespace fl) (k_configMapGenerator k) a Hsp
+             (find_index_none _ _ Hf) Hn Hs).
+  cbn [bind]. unfold wrote. rewrite N_set_configMapGenerator. fold (gen_norm (gen_norm (k_configMapGenerator k))).
+  rewrite gen_norm_idem.
+  transitivity (set_configMapGenerator (k_configMapGenerator (N k)) (N (N k))); [reflexivity|].
+  rewrite N_idem. apply set_get_configMapGenerator.
+Qed.
+
+Theorem add_remove_secret e k fl name k1 :
+  cf_args fl = [name] -> split_on ","%char name = [name] ->
+  find_gen name (cf_namespace fl) (k_secretGenerator k) = None ->
+  apply_op e (Ok k) (AddSecret fl) = Ok (Some k1) ->
+  model_step e (model_step e k (AddSecret fl)) (RemoveSecret [name] (cf_namespace fl)) = N k.
+Proof.
+  intros Ha Hsp Hf H1. rewrite (model_step_N e k). rewrite H1. cbn [apply_op] in H1.
+  destruct (validate_add e fl) as [files| | |]; try discriminate H1. cbn [bind] in H1.
+  destruct (add_generator_args e true fl files (k_generatorOptions k) (k_secretGenerator k)) as [l'| | |] eqn:A;
+    try discriminate H1. cbn [bind] in H1. unfold wrote in H1. injection H1 as H1. subst k1.
+  destruct (add_generator_args_new _ _ _ _ _ _ _ _ Ha Hf A) as [a [El [Hn Hs]]]. subst l'.
+  rewrite N_set_secretGenerator. rewrite model_step_N. cbn [apply_op bind k_secretGenerator set_secretGenerator].
+  fold (gen_norm (k_secretGenerator k ++ [a])).
+  rewrite (remove_generator_args_added name (cf_namespace fl) (k_secretGenerator k) a Hsp
+             (find_index_none _ _ Hf) Hn Hs).
+  cbn [bind]. unfold wrote. rewrite N_set_secretGenerator. fold (gen_norm (gen_norm (k_secretGenerator k))).
+  rewrite gen_norm_idem.
+  transitivity (set_secretGenerator (k_secretGenerator (N k)) (N (N k))); [reflexivity|].
+  rewrite N_idem. apply set_get_secretGenerator.
+Qed.
+
+(* add patch ; remove patch *)
+Lemma selector_eqb_refl s : selector_eqb s s = true.
+Proof. unfold selector_eqb. destruct (selector_eq_dec s s); [reflexivity|contradiction]. Qed.
+
+Lemma patch_equals_cli_refl path ptch target :
+  patch_equals (cli_patch path ptch target) (cli_patch path ptch target) = true.
+Proof.
+  unfold patch_equals, cli_patch. cbn. rewrite !String.eqb_refl. cbn.
+  destruct (selector_eqb target empty_selector); [reflexivity|]. rewrite selector_eqb_refl. reflexivity.
+Qed.
+
+Lemma canon_cli_patch path ptch target : canon_patch (cli_patch path ptch target) = cli_patch path ptch target.
+Proof. reflexivity. Qed.
+
+Lemma filter_none_equal p l :
+  existsb (fun q => patch_equals q p) l = false -> filter (fun q => negb (patch_equals q p)) l = l.
+Proof.
+  induction l as [|a l IH]; intro H; [reflexivity|]. cbn [existsb] in H.
+  apply orb_false_elim in H. destruct H as [H1 H2]. cbn [filter]. rewrite H1. cbn. rewrite IH by exact H2. reflexivity.
+Qed.
+
+Theorem add_remove_patch e k path ptch target k1 :
+  existsb (fun q => patch_equals (canon_patch q) (cli_patch path ptch target)) (k_patches k) = false ->
+  apply_op e (Ok k) (AddPatch path ptch target) = Ok (Some k1) ->
+  model_step e (model_step e k (AddPatch path ptch target)) (RemovePatch path ptch target) = N k.
+Proof.
+  intros Hg H1. rewrite (model_step_N e k). rewrite H1. cbn [apply_op] in H1.
+  set (p := cli_patch path ptch target) in *.
+  destruct (negb (String.eqb ptch "") && negb (String.eqb path "")) eqn:V1; [discriminate H1|].
+  destruct (String.eqb ptch "" && String.eqb path ""); [discriminate H1|].
+  cbn [bind] in H1. cbn zeta in H1.
+  unfold nothing in H1.
+  destruct (existsb (fun q => patch_equals q p) (k_patches k)); [discriminate H1|].
+  unfold wrote in H1. injection H1 as H1. subst k1.
+  rewrite N_set_patches. rewrite model_step_N. cbn [apply_op]. rewrite V1.
+  cbn [bind k_patches set_patches]. cbn zeta. fold p.
+  assert (canon_patch p = p) as Ecp by reflexivity.
+  assert (patch_equals p p = true) as Epp by apply patch_equals_cli_refl.
+  rewrite map_app. cbn [map]. rewrite Ecp.
+  rewrite filter_app. cbn [filter]. rewrite Epp. cbn [negb]. rewrite app_nil_r.
+  assert (existsb (fun q => patch_equals q p) (map canon_patch (k_patches k)) = false) as Hg'
+      by (clear - Hg; induction (k_patches k) as [|q l IH]; [reflexivity|];
+          cbn [map existsb] in *; apply orb_false_elim in Hg; destruct Hg as [G1 G2];
+          rewrite G1, (IH G2); reflexivity).
+  rewrite (filter_none_equal p _ Hg').
+  rewrite app_length. cbn [List.length].
+  assert (Nat.eqb (List.length (map canon_patch (k_patches k)))
+                  (List.length (map canon_patch (k_patches k)) + 1) = false) as Hlen
+      by (apply Nat.eqb_neq; lia).
+  rewrite Hlen. unfold wrote. rewrite N_set_patches.
+  rewrite (map_idem canon_patch) by (intros [? ? ? ?]; unfold canon_patch; cbn; rewrite canon_mapo_idem; reflexivity).
+  transitivity (set_patches (k_patches (N k)) (N (N k))); [reflexivity|].
+  rewrite N_idem. apply set_get_patches.
+Qed.
